@@ -1,3 +1,6 @@
-import FindVerif.Theorems.C09
+import FindVerif.Theorems.C09Sem
 #print axioms FV.C09_wrap
 #print axioms FV.C09_nowrap
+#print axioms FV.noAction_outcome
+#print axioms FV.C09_prints_exactly_when_true
+#print axioms FV.C09_nothing_added
